@@ -14,6 +14,10 @@ Definition R_ (tq : Q) (vf ra dg nr de co : list Q) : rowQ := @mkRow Qops tq vf 
 Definition C_ (q : quantity) (i : ineq) (v : Q) (s : option string) : condQ := @mkCond Qops q i v s.
 Definition L_ (b : bool) (tq : Q) : latchQ := @mkLatch Qops b tq.
 Definition E_ (c : condQ) (o : bool) (l : latchQ) : entryQ := @mkEntry Qops c o l.
+(* one call model.addStoppingCondition(obj [, mode]): condition, current latch of the object, the mode
+   argument as written by the caller (None = omitted) *)
+Definition Reg_ (c : condQ) (l : latchQ) (m : option string) : condQ * latchQ * option string := (c, l, m).
+Definition registered (regs : list (condQ * latchQ * option string)) : list entryQ := register Qops [] regs.
 
 (* the physics = a recorded reference trajectory (the run WITHOUT stopping conditions) *)
 Definition next_from (rows : list rowQ) (h : list rowQ) : rowQ :=
@@ -48,10 +52,10 @@ Definition table := list (Q * list rowQ).
 Definition lookup (tb : table) (Temp : Q) : list rowQ :=
   match find (fun p => Qeq_bool (fst p) Temp) tb with Some p => snd p | None => [] end.
 
-Definition ttp_case (nm : names) (tb : table) (maxTime : Q) (cs : list (condQ * latchQ)) (temps : list Q) :=
+Definition ttp_case (nm : names) (tb : table) (maxTime : Q) (pre : list entryQ) (cs : list (condQ * latchQ)) (temps : list Q) :=
   let fuel := S (S (fold_right Nat.max 0%nat (map (fun p => length (snd p)) tb))) in
   match calculateTTP Qops nm (fun Temp => hd (dummy_row Qops) (lookup tb Temp))
-                     (fun Temp h => next_from (lookup tb Temp) h) fuel maxTime (ttp_init Qops cs) temps with
+                     (fun Temp h => next_from (lookup tb Temp) h) fuel maxTime (ttp_init_on Qops pre cs) temps with
   | Some rows => Some (map (map approx) rows)
   | None => None
   end.
